@@ -541,6 +541,8 @@ SYNTHETIC = [
     ('[C;D1:1]', '[14C:1]', 'isotope requested on a re-typed atom'),
     ('[O-:1][C:2]', '[A:1][A:2]', 'any-atom: requested charge 0 replaces the charge of the match'),
 ]
+CISTRANS = ['C/C=C/CO', 'F/C=C\\Cl', 'C/C=C\\CCO', 'OC/C=C/C=C/C', 'CC=[C@]=CCO', 'C/C=C/C(=O)OCC', 'N/C(C)=C/CCl', 'OCC=[C@@]=CC', 'C/C=C/CN', 'Cl/C=C/CCBr',
+            'C/C(Cl)=C/CC#N', 'O/C=C/C[N+](C)(C)C']
 STEREO = ['C[C@H](N)C(=O)O', 'C[C@@H](O)CC(=O)OCC', 'C[C@@H]1CC[C@H](O)CC1', 'OC[C@H]1O[C@@H](O)[C@H](O)[C@@H](O)[C@@H]1O', 'N[C@@H](CO)C(=O)O',
           'C[C@H](Cl)CCOC', 'CC(C)C[C@H](NC(C)=O)C(=O)O', 'Br[C@H](C)CC#N', 'C[C@@H](N)Cc1ccc(Cl)cc1', 'CCO[C@H](C)C(N)=O']
 DECORATED = ['C[N+](C)(C)CC(=O)[O-]', 'C[CH]O |^1:1|', '[13CH3]CO', 'CC(=O)[O-].[Na+]', '[O-][N+](=O)c1ccccc1', '[13CH3][13CH2]O', 'C[CH]C[O-] |^1:1|',
@@ -592,6 +594,28 @@ def patch_case(ck, batch, t, structure, mapping, tag, describe):
             batch.add(f'stereo_case_eqb {zl(list(sth))} {zl(hs)} {m_term} {lst([tup(tup(zraw(n), zl(env)), opt(lab, b)) for n, env, lab in obs])}',
                       {'kind': 'untouched stereo labels', 'input': describe, 'observed': [(n, lab) for n, _, lab in obs]}, ctx=(t, structure, dict(mapping0), describe))
             ck.count('patcher:untouched-stereocentres:label ' + ('kept' if all(lab is not None for _, _, lab in obs) else 'dropped by fix_stereo'))
+        # untouched cis/trans bonds and allenes (every atom of the cumulene chain untouched): registry entry of the input and the
+        # label of the product (re-computed by the translation loop of _patcher; fix_stereo may only drop it)
+        try:
+            cums = structure.stereogenic_cumulenes
+        except Exception:
+            cums = {}
+        for path, env in cums.items():
+            if any(x in named or x in gone or x not in new._atoms for x in path):
+                continue
+            i = len(path) // 2
+            if len(path) % 2:
+                old, real = structure._atoms[path[i]].stereo, new._atoms[path[i]].stereo
+            else:
+                old = structure._bonds[path[i - 1]][path[i]].stereo
+                bd = new._bonds[path[i - 1]].get(path[i])
+                real = None if bd is None else bd.stereo
+            if old is None:
+                continue
+            env_t = f'(Some ({zraw(env[0])}, {zraw(env[1])}, {opt(env[2], zraw)}, {opt(env[3], zraw)}))'
+            batch.add(f'cum_case_run {m_term} {before} {zl(to_del)} {t_term} {zraw(path[0])} {zraw(path[1])} {zraw(path[-2])} {zraw(path[-1])} {b(old)} {env_t} {opt(real, b)}',
+                      {'kind': 'untouched cumulene label', 'input': describe, 'path': path, 'old': old, 'real': real}, ctx=(t, structure, dict(mapping0), describe))
+            ck.count('patcher:untouched-' + ('allene' if len(path) % 2 else 'cis/trans') + ':label ' + ('kept' if real is not None else 'dropped by fix_stereo'))
     ck.count(f'patcher:{tag}:' + ('ok' if ok else res))
     ck.case(('patch', tag, describe, before), nontrivial=ok)
     return new
@@ -608,7 +632,7 @@ def corr_patcher(ck):
     small = ['CCO', 'CC(=O)O', 'CCN', 'NCCO', 'CCOCC', 'c1ccccc1Cl', 'CC(=O)OCC', 'C1N2CC1C2', 'C1N(F)N(C1)Cl', 'OC1CC2CC1C2', 'CC#N',
              'C[N+](C)(C)CC(=O)[O-]', 'CC(N)C(=O)O', 'Brc1ccc(O)cc1', 'C[C@H](N)C(=O)O', 'C/C=C/CO', 'OCC1CO1', 'CC(C)OCc1ccccc1',
              '[13CH3]CO', 'CCO.CCN', 'C[CH]O |^1:1|', 'NN', 'CN(C)N', 'O', 'CO']
-    pool = small + DECORATED + STEREO + corpus.sample(corpus.lipo(), 40 if quick else 400, ck.seed, 'c16p')
+    pool = CISTRANS + small + DECORATED + STEREO + corpus.sample(corpus.lipo(), 40 if quick else 400, ck.seed, 'c16p')
     mols = []
     for smi in pool:
         try:
@@ -622,7 +646,7 @@ def corr_patcher(ck):
         hits = 0
         for smi, m in mols:
             for k, mp in enumerate(t._pattern.get_mapping(m, automorphism_filter=False)):
-                if k >= 3 or hits >= (25 if quick else 200):
+                if k >= 3 or hits >= (40 if quick else 200):
                     break
                 patch_case(ck, batch, t, m, mp, what, f'{smi} / {pat}>>{rep}')
                 hits += 1
